@@ -148,7 +148,8 @@ DoEditNFT(s, who, c, id, n, u, h, d) ==
 (* msg_server.go TransferNFT -> nft.go TransferOwnership -> x/nft Update, Transfer *)
 DoTransferNFT(s, who, c, id, to, n, u, h, d) ==
   IF who \in Unsignable THEN Fail(s, "unsignable")
-  ELSE IF BadClassId(c) \/ BadTokenId(id) THEN Fail(s, "invalid_id")   \* ValidateBasic (no uri length check here)
+  ELSE IF BadClassId(c) \/ BadTokenId(id) THEN Fail(s, "invalid_id")   \* ValidateBasic
+  ELSE IF u = URI257 THEN Fail(s, "invalid_uri")                       \* since /repo 3rd fix of round 7 (F37): checked here too
   ELSE IF d = BADJSON THEN Fail(s, "invalid_data")
   ELSE IF ~HasNFT(s, c, id) THEN Fail(s, "no_nft")
   ELSE IF OwnerOf(s, c, id) # who THEN Fail(s, "unauthorized")
